@@ -12,9 +12,13 @@ RULE = (
     "every string of a grammar-generated set of dependency atoms (category x package-name x operator x version x glob; "
     "slot/sub-slot/slot-operator x ::repo x USE-dep x blocker menus) and every single-character edit (delete, insert, "
     "substitute at every position over the structural characters) of a core subset and of hand-written boundary "
-    "strings, under every EAPI 0-8 (9 when enabled) and with no EAPI: pkgcore accepts <=> the PMS recogniser of "
+    "strings, with no EAPI and under every numbered EAPI from 0 up to and including pkgcore's LATEST_PMS_EAPI_VER passed "
+    "explicitly (also when that EAPI is disabled on the image): pkgcore accepts <=> the PMS recogniser of "
     "DESIGN A3 accepts; every accepted atom a: atom(str(a)) parses, == a both ways, and matches exactly the same "
-    "packages of a per-key package universe (versions x slot/sub-slot x repo x USE/IUSE). A class is (recogniser "
+    "packages of a per-key package universe (versions x slot/sub-slot x repo x USE/IUSE). Parse histories: for every "
+    "optional-feature shape (USE-dep token forms with and without (+)/(-) defaults, slot, sub-slot, slot operators, "
+    "blockers, ::repo) and every ordered pair of distinct EAPI settings, the text is parsed under the first then under "
+    "the second in one process and each verdict must equal the recogniser's verdict for that (text, EAPI) alone. A class is (recogniser "
     "verdict and first reason | pkgcore outcome), per optional feature used, and per round-trip kind; "
     "distinct_nontrivial counts classes observed."
 )
@@ -27,14 +31,17 @@ ASSUMPTIONS = [
     "the hash of the re-parsed atom is not compared here (C02 owns hash/equality agreement)",
     "::repo placement (after the slot part, before USE deps) and name characters follow DESIGN A3, the extension being pkgcore's own",
     "only single edits; strings two or more edits away from every generated atom are not covered",
+    "parse histories have length two and use names unique to the history; a single-parse candidate carries the EAPI "
+    "settings its text was evaluated under earlier in the worker and the replay re-runs them first; dependence on "
+    "longer or cross-text histories is not explored",
 ]
 BOUNDS = {
     "quick": "valid set: 72 keys x 57 version specs + 1 key x 5 version specs x 11 slot x 4 repo x 17 USE x 3 blocker menus "
-    "(15319 strings) x 10 EAPI settings incl. round trip over a 113-package universe per key; edits: all single edits "
-    "(delete/insert/substitute over 23 characters) of a 225-string core (incl. 60 hand-written boundary strings) x 10 "
-    "EAPI settings (~1.2M evaluations)",
+    "(15319 strings) x 11 EAPI settings (none, 0-9) incl. round trip over a 113-package universe per key; edits: all single edits "
+    "(delete/insert/substitute over 23 characters) of a 395-string core (incl. 60 hand-written boundary strings) x 11 "
+    "EAPI settings (~2.7M evaluations); 25 feature shapes x 110 ordered EAPI pairs = 2750 two-step parse histories",
     "thorough": "same valid set; all single edits of a 3824-string core (quick core + 72 keys x 5 version specs + 2 keys x "
-    "57 version specs + 5 version specs x 8 slot x 3 repo x 9 USE x 3 blocker menus) x 10 EAPI settings (~32M evaluations)",
+    "57 version specs + 5 version specs x 8 slot x 3 repo x 9 USE x 3 blocker menus) x 11 EAPI settings (~36M evaluations); same 2750 parse histories",
 }
 TIME_CAP = {"thorough": 840}
 
@@ -219,10 +226,11 @@ def single_edits(s):
 def eapis():
     from pkgcore.ebuild import eapi as eapi_mod
 
-    out = [None] + list(range(0, 9))
-    if "9" in eapi_mod.EAPI.known_eapis:
-        out.append(9)
-    return out
+    # no EAPI, then every numbered EAPI up to and including the newest one pkgcore names (LATEST_PMS_EAPI_VER), passed
+    # explicitly -- also when that EAPI is disabled on this image (old bash): the atom parser only needs its option table
+    latest = int(eapi_mod.LATEST_PMS_EAPI_VER)
+    known = [int(k) for k in eapi_mod.EAPI.known_eapis if k.isdigit()]
+    return [None] + list(range(0, max([latest] + known) + 1))
 
 
 VALID_CHUNK = 120
@@ -235,6 +243,8 @@ def tasks(tier):
     c = edit_core(tier)
     step = EDIT_CHUNK[tier]
     out += [("edits", tier, i, min(i + step, len(c))) for i in range(0, len(c), step)]
+    h = histories()
+    out += [("history", tier, i, min(i + 250, len(h))) for i in range(0, len(h), 250)]
     return out
 
 
@@ -341,8 +351,77 @@ def check_string(s, eapi, classes=None):
     return got, msgs
 
 
-def _case(s, eapi, got, kind, msg):
-    return {"s": s, "eapi": eapi, "got": got, "kind": kind, "msg": msg}
+def _case(s, eapi, got, kind, msg, pre=()):
+    """pre: the EAPI settings the same text was evaluated under earlier in the same process, in order.  The replay
+    re-runs them first, so a verdict that depends on what was parsed before reproduces in a fresh process."""
+    c = {"s": s, "eapi": eapi, "got": got, "kind": kind, "msg": msg}
+    if pre:
+        c["pre"] = list(pre)
+        c["msg"] = msg + " [same text evaluated before under EAPI " + ",".join("none" if e is None else str(e) for e in pre) + " in this process]"
+    return c
+
+
+# ---------------------------------------------------------------- parse histories
+# One optional feature per shape; {n} makes every name of a history unique, so histories are independent of one another
+# (and of the single-parse tasks) even if the implementation remembers texts it has seen.
+HISTORY_SHAPES = [
+    ("use", "a/h{n}[f{n}]"),
+    ("use", "a/h{n}[-f{n}]"),
+    ("use", "a/h{n}[f{n}?]"),
+    ("use", "a/h{n}[!f{n}?]"),
+    ("use", "a/h{n}[f{n}=]"),
+    ("use", "a/h{n}[!f{n}=]"),
+    ("usedef", "a/h{n}[f{n}(+)]"),
+    ("usedef", "a/h{n}[f{n}(-)]"),
+    ("usedef", "a/h{n}[-f{n}(+)]"),
+    ("usedef", "a/h{n}[-f{n}(-)]"),
+    ("usedef", "a/h{n}[f{n}(+)?]"),
+    ("usedef", "a/h{n}[!f{n}(-)?]"),
+    ("usedef", "a/h{n}[f{n}(-)=]"),
+    ("usedef", "a/h{n}[!f{n}(+)=]"),
+    ("usedef", "=a/h{n}-1:0[g{n},-f{n}(+)]"),
+    ("slot", "a/h{n}:s{n}"),
+    ("sub", "a/h{n}:s{n}/t{n}"),
+    ("slotop", "a/h{n}:="),
+    ("slotop", "a/h{n}:*"),
+    ("slotop", "a/h{n}:s{n}="),
+    ("strongblock", "!!a/h{n}"),
+    ("block", "!a/h{n}"),
+    ("repo", "a/h{n}::r{n}"),
+    ("repo", "=a/h{n}-1:0::r{n}[f{n}]"),
+    ("plain", "a/h{n}"),
+]
+
+
+def histories():
+    """(index, tag, [(text, eapi), (text, eapi)]) for every shape and every ordered pair of distinct EAPI settings."""
+    es = eapis()
+    out = []
+    n = 0
+    for tag, shape in HISTORY_SHAPES:
+        for e1 in es:
+            for e2 in es:
+                if e1 != e2:
+                    text = shape.replace("{n}", str(n))
+                    out.append((n, tag, [(text, e1), (text, e2)]))
+                    n += 1
+    return out
+
+
+def check_history(steps, classes=None, tag=""):
+    """Parse the steps in order in this process; every verdict must equal the reference verdict of that (text, EAPI) alone."""
+    msgs = []
+    trail = []
+    for i, (s, e) in enumerate(steps):
+        verdict = ref_atoms.recognise(s, e)[0]
+        got, _ = _parse_impl(s, e)
+        trail.append(f"{s!r}@{'none' if e is None else e}->{got}")
+        if classes is not None and i == len(steps) - 1:
+            for k in (f"history:{ref_atoms.recognise(*steps[0])[0]}-then-{verdict}|{got}", f"history-shape:{tag}"):
+                classes[k] = classes.get(k, 0) + 1
+        if _violated(verdict, got == "accepted"):
+            msgs.append(f"parse history {' ; '.join(trail)}: step {i + 1} should be {verdict} under PMS whatever was parsed before")
+    return msgs
 
 
 def _default_sigterm():
@@ -368,17 +447,31 @@ def work(task):
 
     def run(s):
         nonlocal evals
-        for e in es:
+        for i, e in enumerate(es):
             evals += 1
             got, msgs = check_string(s, e, classes)
             for k, m in msgs:
                 # keep the candidate list small but diverse: at most 2 per (kind, reason, eapi) in one task
-                sig = (k, ref_atoms.recognise(s, e)[1], e)
+                # (known-finding membership is part of the signature so a listed finding cannot use up the quota of
+                # an unlisted defect that happens to share reason and EAPI)
+                case = _case(s, e, got, k, m, es[:i])
+                sig = (k, ref_atoms.recognise(s, e)[1], e, tuple(n for n, f in CLASSIFIERS.items() if f(case)))
                 per_sig[sig] = per_sig.get(sig, 0) + 1
                 if per_sig[sig] <= 2:
-                    viol.append(_case(s, e, got, k, m))
+                    viol.append(case)
 
-    if kind == "valid":
+    if kind == "history":
+        hs = histories()
+        for n, tag, steps in hs[lo:hi]:
+            evals += 1
+            msgs = check_history(steps, classes, tag)
+            if msgs:
+                sig = (tag, steps[0][1], steps[1][1])
+                per_sig[sig] = per_sig.get(sig, 0) + 1
+                if per_sig[sig] <= 2:
+                    viol.append({"kind": "history", "steps": [list(st) for st in steps], "msg": msgs[0]})
+        samples = [[list(st) for st in hs[lo][2]]]
+    elif kind == "valid":
         v = valid_set()
         for s in v[lo:hi]:
             run(s)
@@ -395,6 +488,10 @@ def work(task):
 
 
 def replay(case):
+    if case.get("kind") == "history":
+        return check_history([tuple(st) for st in case["steps"]])
+    for e in case.get("pre", ()):  # what this process' predecessor had evaluated on the same text, in the same order
+        check_string(case["s"], e)
     got, msgs = check_string(case["s"], case["eapi"])
     return [m for _, m in msgs]
 
